@@ -18,6 +18,7 @@ func checkC07(c *Ctx) {
 	c07JSON(c)
 	c07Hcldec(c)
 	c07Dynblock(c)
+	c07BlockSelection(c)
 	c.NotCovered("that a reported traversal has the right steps; equality of diagnostics under a pruned scope")
 	c.NotCovered("hand-built ASTs whose ObjectConsKeyExpr literal-key condition differs between Value and walkChildNodes")
 }
@@ -1316,4 +1317,111 @@ func constStringsOf(v ssa.Value, seen map[ssa.Value]bool) []string {
 		return constStringsOf(x.X, seen)
 	}
 	return nil
+}
+
+// R7: the methods of a spec that act on one block of a type act on the same one.
+func c07BlockSelection(c *Ctx) {
+	c.Rule("R7 spec.select: in every hcldec Spec method (decode, variablesNeeded, sourceRange, …) that picks a single *hcl.Block out of content.Blocks in a loop, the block picked is the FIRST matching one: the assignment is followed by leaving the loop, or is made only while nothing has been picked yet — so the variables reported, the source range and the value decoded all belong to the same block")
+	n := 0
+	for _, fn := range c.P.pkgFuncs("hcldec") {
+		if fn.Signature.Recv() == nil {
+			continue
+		}
+		for _, b := range fn.Blocks {
+			for _, ins := range b.Instrs {
+				phi, ok := ins.(*ssa.Phi)
+				if !ok {
+					break
+				}
+				pt, isPtr := phi.Type().(*types.Pointer)
+				if !isPtr || !isNamed(pt.Elem(), modPath, "Block") {
+					continue
+				}
+				// a loop-header phi: one edge is the phi itself or comes from inside a cycle
+				inLoop := false
+				for _, scc := range sccBlocks(fn.Blocks, nil) {
+					if len(scc) > 1 {
+						for _, sb := range scc {
+							if sb == b {
+								inLoop = true
+							}
+						}
+					}
+				}
+				hasNil := false
+				for _, e := range phi.Edges {
+					if isNilConst(e) {
+						hasNil = true
+					}
+				}
+				if !inLoop || !hasNil {
+					continue
+				}
+				n++
+				c.Fn(FuncName(fn))
+				c.Sites++
+				bad := token.NoPos
+				for i, e := range phi.Edges {
+					if e == ssa.Value(phi) || isNilConst(e) {
+						continue
+					}
+					if inner, ok := e.(*ssa.Phi); ok {
+						// merged continue paths: every non-self edge of the inner phi is judged
+						all := true
+						for j, e2 := range inner.Edges {
+							if e2 == ssa.Value(phi) || isNilConst(e2) {
+								continue
+							}
+							if !underNilTest(inner.Block().Preds[j], phi) {
+								all = false
+							}
+						}
+						if all {
+							continue
+						}
+					}
+					// a new pick flows round the loop: only fine when made while nothing was picked
+					if !underNilTest(b.Preds[i], phi) {
+						bad = b.Preds[i].Instrs[0].Pos()
+						if !bad.IsValid() {
+							bad = fn.Pos()
+						}
+					}
+				}
+				c.Check(!bad.IsValid(), "spec.select", FuncName(fn)+":pick["+phi.Comment+"]", phi.Pos(), "first matching block",
+					"the loop keeps replacing the picked block with later matches (last match wins) while the other methods of the spec act on the first one: variables, source range and decoded value no longer belong to the same block")
+			}
+		}
+	}
+	c.Floor("spec.select loops", n, 2, "BlockSpec.decode, BlockSpec.variablesNeeded")
+}
+
+// underNilTest: block b is dominated by the edge on which v == nil.
+func underNilTest(b *ssa.BasicBlock, v ssa.Value) bool {
+	for d := b; d != nil; d = d.Idom() {
+		idom := d.Idom()
+		if idom == nil {
+			break
+		}
+		iff, ok := lastIf(idom)
+		if !ok || len(d.Preds) != 1 {
+			continue
+		}
+		bo, ok := iff.Cond.(*ssa.BinOp)
+		if !ok || (bo.Op != token.EQL && bo.Op != token.NEQ) {
+			continue
+		}
+		isV := (bo.X == v && isNilConst(bo.Y)) || (bo.Y == v && isNilConst(bo.X))
+		if !isV {
+			continue
+		}
+		nilEdge := 0
+		if bo.Op == token.NEQ {
+			nilEdge = 1
+		}
+		if idom.Succs[nilEdge] == d {
+			return true
+		}
+	}
+	return false
 }
